@@ -103,13 +103,19 @@ Tab(I) ==
   IN [I |-> I, N |-> N, st |-> st, tot |-> tot, own |-> own, keep |-> keep]
 \* the concatenated matrices: object k's block sits in range k (columns; rows and columns for the square ones)
 MMof(T) == Mat(T.I.n, T.tot, LAMBDA t, c : T.I.objs[T.own[c]].M[t][c - T.st[T.own[c]]])
-BBof(T) == Mat(T.I.n, T.tot, LAMBDA t, c : T.I.objs[T.own[c]].B[t][c - T.st[T.own[c]]])
-HHof(T) == Mat(T.tot, T.tot, LAMBDA a, b : IF T.own[a] = T.own[b] THEN T.I.objs[T.own[a]].H[a - T.st[T.own[a]]][b - T.st[T.own[a]]] ELSE 0)
+BBcalc(T) == Mat(T.I.n, T.tot, LAMBDA t, c : T.I.objs[T.own[c]].B[t][c - T.st[T.own[c]]])
+HHcalc(T) == Mat(T.tot, T.tot, LAMBDA a, b : IF T.own[a] = T.own[b] THEN T.I.objs[T.own[a]].H[a - T.st[T.own[a]]][b - T.st[T.own[a]]] ELSE 0)
 \* curvature matrix F = B' W B + eps on the diagonal of unregularised parameters;  C = F + g H
-FFof(T) == LET BB == BBof(T)
-           IN Mat(T.tot, T.tot, LAMBDA a, b : SumOver(1 .. T.I.n, LAMBDA t : BB[t][a] * BB[t][b] * T.I.w[t])
-                                              + (IF a = b /\ ~ HasReg(T.I.objs[T.own[a]]) THEN T.I.eps ELSE 0))
-CCof(T) == LET FF == FFof(T) HH == HHof(T) IN Mat(T.tot, T.tot, LAMBDA a, b : FF[a][b] + T.I.g * HH[a][b])
+FFcalc(T, BB) == Mat(T.tot, T.tot, LAMBDA a, b : SumOver(1 .. T.I.n, LAMBDA t : BB[t][a] * BB[t][b] * T.I.w[t])
+                                                 + (IF a = b /\ ~ HasReg(T.I.objs[T.own[a]]) THEN T.I.eps ELSE 0))
+CCcalc(T, FF, HH) == Mat(T.tot, T.tot, LAMBDA a, b : FF[a][b] + T.I.g * HH[a][b])
+\* a table that also carries them (trace validation judges many reads of one instance); the accessors work on both kinds of table
+TabFull(I) == LET T == Tab(I) BB == BBcalc(T) HH == HHcalc(T) FF == FFcalc(T, BB) CC == CCcalc(T, FF, HH)
+              IN [I |-> I, N |-> T.N, st |-> T.st, tot |-> T.tot, own |-> T.own, keep |-> T.keep, BB |-> BB, HH |-> HH, FF |-> FF, CC |-> CC]
+BBof(T) == IF "BB" \in DOMAIN T THEN T.BB ELSE BBcalc(T)
+HHof(T) == IF "HH" \in DOMAIN T THEN T.HH ELSE HHcalc(T)
+FFof(T) == IF "FF" \in DOMAIN T THEN T.FF ELSE FFcalc(T, BBcalc(T))
+CCof(T) == IF "CC" \in DOMAIN T THEN T.CC ELSE CCcalc(T, FFcalc(T, BBcalc(T)), HHcalc(T))
 
 ParamRange(T, k) == << T.st[k], T.st[k + 1] >>
 \* positions (1-based) of the linear objects / of the objects whose regularization is an instance of cls, in list order
